@@ -166,11 +166,14 @@ package route
 // `deliveries` counts what left this function towards a sink: upstream queue, peer
 // queue, collector. (A span kept by stress relief is forwarded upstream inside
 // ProcessSpanImmediately.)
+// procErr(r): what the most recent processEvent on router r answered
+//@ ghost procErr(ref) error
 //@ contract route.(*Router).processEvent props C19,C16,C23,C17
 //@   assert owns
 //@   requires r != nil && ev != nil && owns(ev)
 //@   let e0 = ev
 //@   ghostupdate procN(r) :: procN(r) == old(procN(r)) + 1
+//@   ghostupdate[what-processing-answered@C23] procErr(r) :: procErr(r) == result
 //@   requires[distinct-sinks] toInt(refOf(r.UpstreamTransmission)) != toInt(refOf(r.PeerTransmission))
 //@   ensures[at-most-one-of-each] 0 <= enqN(r.UpstreamTransmission) - old(enqN(r.UpstreamTransmission)) && enqN(r.UpstreamTransmission) - old(enqN(r.UpstreamTransmission)) <= 1 && 0 <= enqN(r.PeerTransmission) - old(enqN(r.PeerTransmission)) && enqN(r.PeerTransmission) - old(enqN(r.PeerTransmission)) <= 1 && 0 <= addedN(r.Collector) - old(addedN(r.Collector)) && addedN(r.Collector) - old(addedN(r.Collector)) <= 1
 //@   ensures[one-data-route] (enqN(r.UpstreamTransmission) - old(enqN(r.UpstreamTransmission))) + (addedN(r.Collector) - old(addedN(r.Collector))) + ite(enqN(r.PeerTransmission) != old(enqN(r.PeerTransmission)) && !enqProbe(r.PeerTransmission), 1, 0) + (immN(r.Collector) - old(immN(r.Collector))) <= 1
@@ -217,7 +220,7 @@ package route
 //@   ensures[error-status-means-nothing-processed] statusWrites(w) != old(statusWrites(w)) ==> procN(r) == old(procN(r))
 //@   ensures[one-body] bodyWrites(w) == old(bodyWrites(w)) + 1
 //@   loop 1 invariant statusWrites(w) == old(statusWrites(w)) && bodyWrites(w) == old(bodyWrites(w)) && len(batchedResponses) == iter
-//@   modifies all(statusWrites), all(lastStatus), all(bodyWrites), all(procN), all(enqN), all(enqLast), all(enqHost), all(enqKey), all(enqDataset), all(enqProbe), all(owns), all(addedN), all(addedLast), all(bufN), all(immN), all(hdr)
+//@   modifies all(statusWrites), all(lastStatus), all(bodyWrites), all(procN), all(procErr), all(enqN), all(enqLast), all(enqHost), all(enqKey), all(enqDataset), all(enqProbe), all(owns), all(addedN), all(addedLast), all(bufN), all(immN), all(hdr)
 
 // One event of a batch: its response entry says 202 / 429 / 400 exactly according to what
 // processing that event returned.
@@ -228,7 +231,8 @@ package route
 //@   ensures[one-entry-per-event] len(batchedResponses) == old(len(batchedResponses)) + 1 && batchedResponses[len(batchedResponses)-1] == &resp
 //@   ensures[empty-events-are-not-processed] bev.Data.isEmpty ==> procN(r) == old(procN(r)) && err != nil
 //@   ensures[non-empty-events-processed-once] !bev.Data.isEmpty ==> procN(r) == old(procN(r)) + 1
-//@   modifies all(statusWrites), all(lastStatus), all(bodyWrites), all(procN), all(enqN), all(enqLast), all(enqHost), all(enqKey), all(enqDataset), all(enqProbe), all(owns), all(addedN), all(addedLast), all(bufN), all(immN), all(hdr)
+//@   ensures[the-entry-reports-what-processing-answered] !bev.Data.isEmpty && procN(r) == old(procN(r)) + 1 ==> resp.Status == ite(errors.Is(procErr(r), collect.ErrWouldBlock), 429, ite(procErr(r) != nil, 400, 202))
+//@   modifies all(statusWrites), all(lastStatus), all(bodyWrites), all(procN), all(procErr), all(enqN), all(enqLast), all(enqHost), all(enqKey), all(enqDataset), all(enqProbe), all(owns), all(addedN), all(addedLast), all(bufN), all(immN), all(hdr)
 
 //@ contract route.(*Router).event props C23 havocheap
 //@   requires r != nil && req != nil
@@ -237,7 +241,7 @@ package route
 //@   ensures[processed-at-most-once] procN(r) <= old(procN(r)) + 1
 //@   ensures[decode-failure-means-nothing-processed] procN(r) == old(procN(r)) ==> statusWrites(w) == old(statusWrites(w)) + 1
 //@   ensures[error-status-means-nothing-kept] statusWrites(w) != old(statusWrites(w)) ==> enqN(r.UpstreamTransmission) == old(enqN(r.UpstreamTransmission)) && enqN(r.PeerTransmission) == old(enqN(r.PeerTransmission)) && bufN(r.Collector) == old(bufN(r.Collector)) && immN(r.Collector) == old(immN(r.Collector))
-//@   modifies all(statusWrites), all(lastStatus), all(bodyWrites), all(procN), all(enqN), all(enqLast), all(enqHost), all(enqKey), all(enqDataset), all(enqProbe), all(owns), all(addedN), all(addedLast), all(bufN), all(immN), all(hdr)
+//@   modifies all(statusWrites), all(lastStatus), all(bodyWrites), all(procN), all(procErr), all(enqN), all(enqLast), all(enqHost), all(enqKey), all(enqDataset), all(enqProbe), all(owns), all(addedN), all(addedLast), all(bufN), all(immN), all(hdr)
 //@ contract route.(*batchedEvent).getSampleRate inline
 //@ assume route.(*Router).requestToEvent
 //@   ensures result1 == nil ==> result0 != nil && owns(result0) && isFresh(result0)
@@ -315,3 +319,63 @@ package route
 //@   loop 2 invariant[response-being-relayed] resp != nil && toInt(resp) == toInt(doResp(cl)) && doN(cl) == old(doN(cl)) + 1 && statusWrites(w) == old(statusWrites(w)) && bodyWrites(w) == old(bodyWrites(w)) && copyN(w) == old(copyN(w))
 //@   loop 2 invariant[response-headers-copied-so-far] forall k string :: seen(k) ==> in(resp.Header, k) && in(respHeader(w), k) && sameValues(respHeader(w)[k], resp.Header[k])
 //@   modifies all(doN), all(doReq), all(doResp), all(copyN), all(copied), all(readOK), all(respHeader), all(statusWrites), all(lastStatus), all(bodyWrites)
+
+// ---- C25 / C24 / C28 / C37 (wiring): how LnS assembles the HTTP server. gorilla/mux as a log of what is
+// registered: usedMW(router, name) - the named method was installed as middleware on that (sub)router;
+// subPrefix(router) - the path prefix a subrouter serves; routePrefix / routeHandler - a route's path and handler.
+//@ ghost usedMW(ref, string) bool
+//@ ghost subPrefix(ref) string
+//@ ghost routePrefix(ref) string
+//@ ghost routeHandler(ref) string
+//@ package github.com/gorilla/mux
+//@ assume github.com/gorilla/mux.NewRouter
+//@   ensures result != nil && isFresh(result) && subPrefix(result) == "" && (forall n string :: !usedMW(result, n))
+//@ assume github.com/gorilla/mux.(*Router).UseEncodedPath
+//@   ensures result == r
+//@ assume github.com/gorilla/mux.(*Router).PathPrefix
+//@   ensures result != nil && isFresh(result) && routePrefix(result) == tpl
+//@ assume github.com/gorilla/mux.(*Router).HandleFunc
+//@   ensures result != nil && isFresh(result) && routePrefix(result) == path && routeHandler(result) == fnName(f)
+//@ assume github.com/gorilla/mux.(*Router).Handle
+//@   ensures result != nil && isFresh(result) && routePrefix(result) == path
+//@ assume github.com/gorilla/mux.(*Route).Methods
+//@   ensures result == r
+//@ assume github.com/gorilla/mux.(*Route).Name
+//@   ensures result == r
+//@ assume github.com/gorilla/mux.(*Route).HandlerFunc
+//@   ensures result == r
+//@   ghostupdate routeHandler(r) :: routeHandler(r) == fnName(f)
+//@ assume github.com/gorilla/mux.(*Route).Subrouter
+//@   ensures result != nil && isFresh(result) && subPrefix(result) == routePrefix(r) && (forall n string :: !usedMW(result, n))
+//@ package route
+//@ package config
+//@ assume config.Config.GetEnvironmentCacheTTL getter
+//@ assume config.Config.GetGRPCConfig getter
+//@ assume config.Config.GetGRPCEnabled getter
+//@ assume config.Config.GetGRPCListenAddr getter
+//@ assume config.Config.GetHTTPIdleTimeout getter
+//@ assume config.Config.GetListenAddr getter
+//@ assume config.Config.GetPeerListenAddr getter
+//@ package route
+//@ assume route.(*Router).registerMetricNames
+//@ assume route.(*Router).AddOTLPMuxxer
+//@ assume route.(*Router).startGRPCHealthMonitor
+//@ assume route.NewTraceServer
+//@ assume route.NewLogsServer
+//@ assume route.registerCustomTraceService
+//@ assume route.makeDecoders
+//@ assume route.newEnvironmentCache
+// a server's handler is fixed when the server value is built
+//@ final net/http.Server.Handler
+//@ final route.Router.server init route.(*Router).LnS
+//@ spec builtServer(r *Router, before *http.Server) bool := r.server != nil && toInt(r.server) != toInt(before)
+//@ contract route.(*Router).LnS props C25,C24,C28,C37 havocheap noinv
+//@   assert only none
+//@   requires r != nil
+//@   let srv0 = r.server
+// the clauses speak of the server LnS built; when it returns early (the decoder could not start) there is none
+//@   ensures[query-endpoints-sit-behind-the-token-check@C25] builtServer(r, srv0) ==> subPrefix(queryMuxxer) == "/query/" && usedMW(queryMuxxer, "route.(*Router).queryTokenChecker")
+//@   ensures[event-endpoints-sit-behind-the-key-check@C24] builtServer(r, srv0) ==> subPrefix(authedMuxxer) == "/1/" && usedMW(authedMuxxer, "route.(*Router).apiKeyProcessor")
+//@   ensures[every-route-sits-behind-the-panic-catcher@C28] builtServer(r, srv0) ==> usedMW(muxxer, "route.(*Router).panicCatcher")
+//@   ensures[requests-reach-the-routes-as-they-arrive@C37] builtServer(r, srv0) ==> toInt(r.server.Handler) == toInt(muxxer)
+//@   modifies all(usedMW), all(subPrefix), all(routePrefix), all(routeHandler)
